@@ -23,6 +23,7 @@ type localCfg struct {
 	powers  []int64
 	self    int
 	rounds  int  // rounds 0..rounds-1 in the alphabet
+	minR    int  // inputs (votes, proposals) only for rounds >= minR (the scripted prefix may use lower rounds)
 	sym     bool // symmetry reduction over the other validators (equal powers only)
 	split   bool // also offer proposal-only / part-only inputs
 	equiv   bool // also offer equivocating votes
@@ -372,9 +373,13 @@ func runLocal(r *vk.Run, c *localCfg) vk.Result {
 		}
 	}
 	spec := vk.Spec{
-		Name:            "local/" + c.name,
-		NumOps:          len(alpha),
-		OpName:          func(i int) string { return alpha[i].String() },
+		Name:   "local/" + c.name,
+		NumOps: len(alpha),
+		OpName: func(i int) string { return alpha[i].String() },
+		Enabled: func(hist []int, op int) bool {
+			k := alpha[op].kind
+			return k == inTimeout || k == inInternal || k == inPartOnly || alpha[op].r >= c.minR
+		},
 		Depth:           c.depth,
 		MaxState:        c.maxSt,
 		MergeCheckEvery: 500,
@@ -466,6 +471,15 @@ func localConfigs(r *vk.Run) []*localCfg {
 		depth: r.Pick(3, 5), maxSt: r.Pick(60000, 1500000), prefix: lockR1})
 	out = append(out, &localCfg{name: fmt.Sprintf("eq4/self%d(non-proposer)/sym/3rounds/locked-A-r1-moved-to-r2", other), powers: eq, self: other, rounds: 3, sym: true,
 		depth: r.Pick(4, 6), maxSt: r.Pick(60000, 1500000), prefix: append(append([]string{}, lockR1...), pc1N, pc1N, T)})
+	// four rounds: lock A at r0, no polka at r1, RE-lock A at r2 (the lock round must move to 2), node now in round 3;
+	// a late polka for B at round 1 is older than the re-lock and must not release it
+	pv2A, pc2N := "Vote(next,prevote,r2,A)", "Vote(next,precommit,r2,nil)"
+	pv1N := "Vote(next,prevote,r1,nil)"
+	relock := []string{T, PA, pvA, pvA, pcN, pcN, T, T, pv1N, pv1N, T, pc1N, pc1N, T, "Proposal+Block(r2,A,pol-1)", pv2A, pv2A}
+	out = append(out, &localCfg{name: fmt.Sprintf("eq4/self%d(non-proposer)/sym/4rounds/relocked-A-r2", other), powers: eq, self: other, rounds: 4, minR: 1, sym: true,
+		depth: r.Pick(3, 5), maxSt: r.Pick(60000, 1500000), prefix: relock})
+	out = append(out, &localCfg{name: fmt.Sprintf("eq4/self%d(non-proposer)/sym/4rounds/relocked-A-r2-moved-to-r3", other), powers: eq, self: other, rounds: 4, minR: 1, sym: true,
+		depth: r.Pick(4, 6), maxSt: r.Pick(60000, 1500000), prefix: append(append([]string{}, relock...), pc2N, pc2N, T)})
 	if !r.Quick() {
 		// the node is the proposer of round 0 / round 1 (its own block O enters the alphabet implicitly)
 		for _, self := range []int{p0, p1} {
